@@ -953,6 +953,28 @@ class Paths:
                             return None
                         out += [(conj + f2, e2, some(r2)) for f2, e2, r2 in res]
             return out
+        if name in ("sum", "product") and len(args) == 1 and "Iterator" in path:
+            # a reduction of a sequence of statically known elements (literal / constant arrays, zipped, mapped by a pure
+            # single-path closure): the chain of additions it stands for
+            seq = self._seq_of(raw(0), depth)
+            if seq is not None and 1 <= len(seq) <= 8:
+                acc = seq[0]
+                for el in seq[1:]:
+                    acc = mk_bin("Add" if name == "sum" else "Mul", acc, el)
+                return [([], [], acc)]
+        if name == "fold" and len(args) == 3 and "Iterator" in path and (is_closure(raw(2)) or is_fnitem(raw(2))) and _array_iter_base(raw(0)) is None:
+            seq = self._seq_of(raw(0), depth)
+            if seq is not None and len(seq) <= 8:
+                acc = A(1)
+                okf = True
+                for el in seq:
+                    cs = self._apply_callable(raw(2), [acc, el], depth)
+                    if not cs or len(cs) != 1 or cs[0][0] or cs[0][1]:
+                        okf = False
+                        break
+                    acc = cs[0][2]
+                if okf:
+                    return [([], [], acc)]
         if name == "fold" and len(args) == 3 and "Iterator" in path and (is_closure(raw(2)) or is_fnitem(raw(2))):
             # fold over an array literal with a pure, single-path step: the nested applications of the step
             hit = _array_iter_base(raw(0))
@@ -1057,6 +1079,54 @@ class Paths:
                 return self._inline_fn(g, [raw(i) for i in range(len(args))], key[2] if g.path == path else (), depth)
             except Unsupported:
                 return None
+        return None
+
+    def _seq_of(self, t, depth):
+        """the element trees of an iterator expression over statically known elements, or None"""
+        t = strip_refs(t)
+        while t[0] in ("mut", "update"):
+            t = strip_refs(t[1])
+        if t[0] == "agg" and t[1] == "array":
+            return list(t[2])
+        if t[0] == "const" and isinstance(t[1], str) and t[1].startswith("val:"):
+            try:
+                import json as _json
+                v = _json.loads(t[1][4:])
+            except Exception:
+                return None
+            if isinstance(v, dict) and isinstance(v.get("array"), list):
+                v = v["array"]
+            if isinstance(v, list) and all(isinstance(x, (int, bool)) for x in v):
+                return [("const", x) for x in v]
+            return None
+        if t[0] != "call":
+            return None
+        nm = t[1].split("::")[-1]
+        a = t[3]
+        if nm in ("iter", "into_iter", "iter_mut", "by_ref", "copied", "cloned") and len(a) == 1:
+            return self._seq_of(a[0], depth)
+        if nm == "rev" and len(a) == 1:
+            r = self._seq_of(a[0], depth)
+            return list(reversed(r)) if r is not None else None
+        if nm == "zip" and len(a) == 2:
+            x, y = self._seq_of(a[0], depth), self._seq_of(a[1], depth)
+            if x is None or y is None:
+                return None
+            return [("agg", "tuple", (p, q)) for p, q in zip(x, y)]
+        if nm == "enumerate" and len(a) == 1:
+            x = self._seq_of(a[0], depth)
+            return [("agg", "tuple", (("const", k), p)) for k, p in enumerate(x)] if x is not None else None
+        if nm == "map" and len(a) == 2 and (is_closure(strip_refs(a[1])) or is_fnitem(strip_refs(a[1]))):
+            x = self._seq_of(a[0], depth)
+            if x is None:
+                return None
+            out = []
+            for el in x:
+                cs = self._apply_callable(strip_refs(a[1]), [el], depth)
+                if not cs or len(cs) != 1 or cs[0][0] or cs[0][1]:
+                    return None
+                out.append(cs[0][2])
+            return out
         return None
 
     def _from_impl(self, src, dst):
